@@ -13,7 +13,7 @@ import numpy as np
 
 from jsim import envs, props, util
 
-ROOT = "/verif"
+ROOT = os.environ.get("JSIM_ROOT", "/verif")
 OUT = os.environ.get("JSIM_OUT", ROOT)  # evidence/ and replays/ go here (development runs redirect it)
 
 
